@@ -11,3 +11,4 @@ PY
 (cd /repo && cargo test --workspace --offline 2>&1 | grep -E "^test result|error" | awk '/error/ {print} /test result/ {p+=$4; f+=$6} END {print "baseline tests: passed",p,"failed",f}')
 for p in "$@"; do (cd /verif && ./check $p quick | grep -E "^(VIOLATION|  key|C[0-9]+ quick|MACHINERY|KNOWN)" | cut -c1-260 | head -8); done
 git -C /repo checkout -- .
+git -C /verif checkout -- evidence 2>/dev/null
